@@ -51,14 +51,17 @@ pub fn judge_pair(a: &Val, b: &Val) -> Verdict {
     if eq != (pc == Some(Ordering::Equal)) {
         return Verdict::fail("eq_iff_cmp_equal", "eq", &args, show, "a == b <=> partial_cmp == Some(Equal)".into(), "eq_cmp_inconsistent");
     }
-    if lt != (pc == Some(Ordering::Less)) || le != matches!(pc, Some(Ordering::Less | Ordering::Equal)) || gt != (pc == Some(Ordering::Greater)) || ge != matches!(pc, Some(Ordering::Greater | Ordering::Equal)) {
+    // the ordering clauses are claimed for valid operands (and, through the NaN clause below, for operands
+    // with a NaN word); nothing is claimed about how an infinite marker orders against other values
+    let both_valid = a.valid && b.valid;
+    if both_valid && (lt != (pc == Some(Ordering::Less)) || le != matches!(pc, Some(Ordering::Less | Ordering::Equal)) || gt != (pc == Some(Ordering::Greater)) || ge != matches!(pc, Some(Ordering::Greater | Ordering::Equal))) {
         return Verdict::fail("ops_match_partial_cmp", "lt/le/gt/ge", &args, show, "<,<=,>,>= consistent with partial_cmp".into(), "op_cmp_inconsistent");
     }
-    if pc.map(|o| o.reverse()) != pcr {
+    if both_valid && pc.map(|o| o.reverse()) != pcr {
         return Verdict::fail("cmp_antisymmetric", "partial_cmp", &args, show, "partial_cmp(b,a) == reverse(partial_cmp(a,b))".into(), "cmp_not_antisymmetric");
     }
     if a.has_nan || b.has_nan {
-        if eq || pc.is_some() || pcr.is_some() {
+        if eq || pc.is_some() || pcr.is_some() || lt || le || gt || ge {
             return Verdict::fail("nan_unordered", "cmp", &args, show, "an operand with a NaN word is unequal and unordered in both argument orders".into(), "nan_compared");
         }
     }
